@@ -591,7 +591,8 @@ def boundary_inputs(rng):
     oracle that judges it: [(tag, bytes, oracle(ctx))]."""
     out = []
     dags = [[(G.ORD, '10101010', ())],
-            [(G.ORD, '', ()), (G.ORD, G.rand_bits(rng, 13), (0,)), (G.ORD, G.rand_bits(rng, 24), (1, 0))]]
+            [(G.ORD, '', ()), (G.ORD, G.rand_bits(rng, 13), (0,)), (G.ORD, G.rand_bits(rng, 24), (1, 0))],
+            [(G.ORD, format(k, '03b'), ()) for k in range(4)] + [(G.ORD, G.rand_bits(rng, 9), (0, 1, 2, 3))]]
     for di, nodes in enumerate(dags):
         spec = G.spec_dag(nodes)
         n = len(nodes)
